@@ -63,7 +63,7 @@ func genHostile(rng *rand.Rand, thorough bool) hostile {
 	}
 	pk := pb.String("pk")
 	names := []string{"commit-offset", "term", "term-options", "last-version-id", "session", "session-shadow", "idx", "notifications"}
-	switch c := rng.IntN(31); c {
+	switch c := rng.IntN(34); c {
 	case 0:
 		return hostile{"seq:no-partition-key", put(seq("sq", nil, 1))}
 	case 1:
@@ -122,6 +122,31 @@ func genHostile(rng *rand.Rand, thorough bool) hostile {
 		return hostile{"index:overwrite-weird", &proto.WriteRequest{Puts: []*proto.PutRequest{
 			{Key: "a/d", Value: []byte("1"), SecondaryIndexes: []*proto.SecondaryIndex{{IndexName: "x/y", SecondaryKey: "k\x01"}}},
 			{Key: "a/d", Value: []byte("2")}}}}
+	case 31, 32, 33:
+		// the same key written again with another number of index entries (fewer, more, repeated, none)
+		mk := func(n int) []*proto.SecondaryIndex {
+			var out []*proto.SecondaryIndex
+			for i := 0; i < n; i++ {
+				out = append(out, &proto.SecondaryIndex{IndexName: []string{"ia", "ib", "ia"}[i%3], SecondaryKey: fmt.Sprintf("k%d", i%2)})
+			}
+			return out
+		}
+		a, b := 1+rng.IntN(4), rng.IntN(5)
+		tag := "index:overwrite-same-count"
+		switch {
+		case b == 0:
+			tag = "index:overwrite-without"
+		case b < a:
+			tag = "index:overwrite-fewer"
+		case b > a:
+			tag = "index:overwrite-more"
+		}
+		key := []string{"a/g", "a"}[rng.IntN(2)]
+		req := &proto.WriteRequest{Puts: []*proto.PutRequest{{Key: key, Value: []byte("1"), SecondaryIndexes: mk(a)}, {Key: key, Value: []byte("2"), SecondaryIndexes: mk(b)}}}
+		if rng.IntN(2) == 0 {
+			req.Deletes = []*proto.DeleteRequest{{Key: key}}
+		}
+		return hostile{tag, req}
 	case 20:
 		return hostile{"range:all", &proto.WriteRequest{DeleteRanges: []*proto.DeleteRangeRequest{{StartInclusive: "", EndExclusive: "\xff\xff/\xff"}}}}
 	case 21:
